@@ -1,4 +1,5 @@
 import Wasp.Model.Conc
+import Wasp.Proofs.Conc
 /-!
 # C20 — shared broker state is safe under concurrent use
 
@@ -21,11 +22,12 @@ the standard DRF argument), the internals of the lock-free hash (assumed lineari
 scheduling fairness. Claimed partial; `go test -race`-style stress runs support it.
 -/
 namespace Wasp.Conc
+open Wasp.Conc.Proofs
 
 /-- C20 (locks): a disciplined program is data-race free under every schedule -/
 theorem C20_lockset_drf (progs : List (List Act)) (hd : Disciplined progs) (sched : List Nat) :
-    ¬ raceState (runSchedule { progs := progs, held := [] } sched) := by
-  sorry
+    ¬ raceState (runSchedule { progs := progs, held := [] } sched) :=
+  linv_no_race progs hd _ (linv_run progs sched _ (linv_init progs))
 
 /-- C20 (resolution): accounting invariant per key, for every interleaving from a state in which no thread is
     in the middle of an operation -/
@@ -34,20 +36,21 @@ theorem C20_resolution_accounting (pcs : List Pc)
     (sched : List Nat) (k : Key) :
     let s := qrun { pcs := pcs } sched
     s.resolved.count k + (claimed s).count k + s.present.count k = s.accepted.count k := by
-  sorry
+  exact (qrun_inv sched _ (qinv_start pcs hstart)).1 k
 
 /-- each accepted registration is resolved at most once -/
 theorem C20_resolve_once (pcs : List Pc)
     (hstart : ∀ pc ∈ pcs, (∃ k, pc = .insertStart k) ∨ (∃ k b, pc = .ackStart k b) ∨ pc = .sweepPop ∨ pc = .done)
     (sched : List Nat) (k : Key) :
     (qrun { pcs := pcs } sched).resolved.count k ≤ (qrun { pcs := pcs } sched).accepted.count k := by
-  sorry
+  have := (qrun_inv sched _ (qinv_start pcs hstart)).1 k
+  omega
 
 /-- a key is in the table at most once (put-if-missing) -/
 theorem C20_present_nodup (pcs : List Pc)
     (hstart : ∀ pc ∈ pcs, (∃ k, pc = .insertStart k) ∨ (∃ k b, pc = .ackStart k b) ∨ pc = .sweepPop ∨ pc = .done)
-    (sched : List Nat) : (qrun { pcs := pcs } sched).present.Nodup := by
-  sorry
+    (sched : List Nat) : (qrun { pcs := pcs } sched).present.Nodup :=
+  (qrun_inv sched _ (qinv_start pcs hstart)).2
 
 /-- non-vacuity: an Ack and a sweep race for the same entry; whichever deletes first fires, the other does not -/
 example : (qrun { pcs := [.insertStart 7, .ackStart 7 true, .sweepPop] } [0, 0, 1, 2, 2, 1, 2, 1, 1, 2]).resolved = [7] ∧
